@@ -78,3 +78,13 @@ Definition accept_C12_system (c : sy_obj * usys) (o : jv * list (jv * jv)) : ver
   (jv_eqb (model_write_sy s) written
    && forallb (fun io : jv * jv => match model_read_sy parent (fst io) with Ok s' => jv_eqb (model_write_sy s') (snd io) | Err => jv_eqb JNull (snd io) end) variants,
    S (length variants)).
+
+Definition sc_obj := script_obj str.
+Definition txt0 : str := [48%N; 46%N; 48%N].
+Definition model_write_sc (s : sc_obj) : jv := write_script str (fun t => t) txt0 wr12 s.
+Definition model_read_sc (v : jv) : res sc_obj := read_script str (fun t => Some t) txt0 [49%N; 46%N; 48%N] [48%N; 46%N; 48%N; 48%N; 49%N] v.
+Definition accept_C12_script (c : sc_obj) (o : jv * list (jv * jv)) : verdict :=
+  let '(written, variants) := o in
+  (jv_eqb (model_write_sc c) written
+   && forallb (fun io : jv * jv => match model_read_sc (fst io) with Ok s' => jv_eqb (model_write_sc s') (snd io) | Err => jv_eqb JNull (snd io) end) variants,
+   S (length variants)).
